@@ -495,14 +495,18 @@ func (s *Spec) note(fr *Frame, in ssa.Instruction, st *walkState) {
 		case *ssa.Go:
 			l = "go:" + l
 		}
-		it := Item{Label: l, Instr: in, Frame: fr}
-		if ci, isCall := in.(ssa.CallInstruction); isCall {
-			for _, a := range ci.Common().Args {
-				rv, rf := st.resolve(a, fr)
-				it.Args = append(it.Args, PathVal{V: rv, Fr: rf})
+		// one instruction may stand for several events in a row ("a\x00b": http.Error sends the
+		// status and then writes its message)
+		for _, one := range strings.Split(l, "\x00") {
+			it := Item{Label: one, Instr: in, Frame: fr}
+			if ci, isCall := in.(ssa.CallInstruction); isCall {
+				for _, a := range ci.Common().Args {
+					rv, rf := st.resolve(a, fr)
+					it.Args = append(it.Args, PathVal{V: rv, Fr: rf})
+				}
 			}
+			st.items = append(st.items, it)
 		}
-		st.items = append(st.items, it)
 	}
 }
 
